@@ -17,6 +17,8 @@ class Sess:
         self.mc_pending = False   # a delayed multicast response waits in the send queue
         self.hooks = {}           # mid -> (newmid, newtok): resubmitted by the nack handler
         self.pings = 0            # keepalive pings the library has sent
+        self.observed = False     # the peer observes /r on this (server-side) session
+        self.notes = 0            # NON notifications sent (the 6th in a row would be a CON)
         self.act = 0
         self.dq = []          # (con, mid, tok, cnt)
         self.sq = []          # (con, mid, tok, cnt)
@@ -125,6 +127,30 @@ def cfg_tok(s, est0):
     return "%d,%d,%d,1%s" % (s.nstart, s.maxrt, 1 if est0 else 0, "" if s.client else ",s")
 
 
+def gen_prefail(r):
+    """a session that fails before it was ever established: everything submitted so far is held
+    (CON / Observe CON / NON, a duplicate id now and then), then the disconnect - nothing is in the
+    send queue, the held messages are the only thing to report"""
+    nstart, maxrt = r.choice([1, 2, 4]), r.choice([1, 2, 4])
+    s = Sess(nstart, maxrt, False, client=r.random() < 0.8)
+    mid = r.randrange(1, 40000)
+    tok = 10000
+    ops = []
+    for _ in range(r.randrange(1, 6)):
+        mid += 1
+        tok += 1
+        ty = r.choice("ooccn") if s.client else r.choice("ccn")
+        ops.append("S0,%s,%d,%d" % (ty, mid, tok))
+        if r.random() < 0.15:
+            ops.append("S0,c,%d,%d" % (mid, tok + 500))     # duplicate of a held id: refused
+    ops.append("F0,%d" % r.choice([1, 3, 3, 2, 0]))
+    if r.random() < 0.5:
+        ops.append("S0,c,%d,%d" % (mid + 1, tok + 1))
+    prefix = ["ns", "1", "1", cfg_tok(s, False)]
+    return prefix, ops, {"in_scope": True, "nsess": 1, "nstart": [nstart], "nsub": len(ops),
+                         "natural": False, "errs": False}
+
+
 def gen_case(r, big=False, natural=False, errs=False):
     """-> (prefix tokens, ops, meta) ; meta: in_scope (peer only answers what it received)"""
     nsess = r.choice([1, 1, 1, 1, 2, 2, 3])
@@ -144,6 +170,7 @@ def gen_case(r, big=False, natural=False, errs=False):
     if natural and r.random() < 0.5:
         ops.append("K%d" % r.choice([2, 5, 5, 8, 30]))    # keepalive: the library pings when idle
     use_hooks = r.random() < 0.35      # the application's nack handler retries from the callback
+    use_obs = r.random() < 0.3         # block mode: Observe registrations get their lg_crcv in coap_send
     in_scope = True
     subs = 0
     steps = 0
@@ -181,7 +208,8 @@ def gen_case(r, big=False, natural=False, errs=False):
                 # every message with the token of the reset one (coap_cancel), which the model of
                 # the RST branch does not have.
                 tok = r.choice(same)
-            ops.append("S%d,%s,%d,%d" % (k, "c" if con else "n", mid, tok))
+            ops.append("S%d,%s,%d,%d" % (k, ("o" if use_obs and s.client and r.random() < 0.5 else "c")
+                                          if con else "n", mid, tok))
             fresh = mid not in s.used
             s.submit(con, mid, tok)
             if use_hooks and con and fresh and r.random() < 0.5:
@@ -217,6 +245,12 @@ def gen_case(r, big=False, natural=False, errs=False):
                 cand.append((5, "B", (bm, r.choice([1, 1, 2, 4]))))
             if s.client and not natural and not errs:
                 cand.append((5 if (s.est and s.act == 0) else 1, "G", 0))
+            if not s.client and s.est and not natural and not errs:
+                # the peer observes /r; the resource changes -> NON notification, whatever is in flight
+                if not s.observed:
+                    cand.append((3, "O", 0))
+                elif all(t.notes < 4 for t in ss if t.observed):
+                    cand.append((8 if s.sq else 2, "N", 0))
             if not s.client and s.est and not natural and not errs:
                 # multicast request from the peer / its delayed response goes out
                 cand.append((6, "Y", 0) if s.mc_pending else (3, "M", 0))
@@ -266,9 +300,18 @@ def gen_case(r, big=False, natural=False, errs=False):
             s.fail(arg)
             if arg != 4:
                 s.mc_pending = False
+                s.observed = False
         elif kind == "G":
             ops.append("G%d" % k)
             s.ping(k)
+        elif kind == "O":
+            ops.append("O%d" % k)
+            s.observed = True
+        elif kind == "N":
+            ops.append("N%d" % k)
+            for t in ss:
+                if t.observed:
+                    t.notes += 1
         elif kind == "M":
             ops.append("M%d" % k)
             s.mc_pending = True
@@ -314,7 +357,8 @@ def line_of(prefix, ops):
     return " ".join(list(prefix) + list(ops))
 
 
-def enum_cases(depth, nstart, maxrt, est0, max_sub=3, client=True, hooks=False, sametok=False):
+def enum_cases(depth, nstart, maxrt, est0, max_sub=3, client=True, hooks=False, sametok=False,
+               observe=False):
     """Exhaustive small scope: every history of exactly `depth` events over the alphabet
     {S con, S non, and for every message id submitted so far: A R T P, plus one unknown id for A R,
      U, F1, F4} on one session; ids are 1,2,3.. in submission order, tokens 10000+id.
@@ -338,7 +382,7 @@ def enum_cases(depth, nstart, maxrt, est0, max_sub=3, client=True, hooks=False, 
         alpha = []
         if nsub < max_sub:
             tk = 10001 if sametok else 10001 + nsub
-            alpha += ["S0,c,%d,%d" % (nsub + 1, tk), "S0,n,%d,%d" % (nsub + 1, tk)]
+            alpha += ["S0,%s,%d,%d" % ("o" if observe else "c", nsub + 1, tk), "S0,n,%d,%d" % (nsub + 1, tk)]
         for m in range(1, nsub + 1):
             alpha += ["A0,%d" % m, "R0,%d" % m, "T0,%d" % m, "B0,%d,1" % m]
             if not sametok or m == 1:
